@@ -295,6 +295,7 @@ func (m *Machine) resetPath(item workItem) {
 	m.depth = 0
 	m.locksHeld = map[*value]int{}
 	m.lastMono = nil
+	m.wallAt = map[int][2]value{}
 	m.facts = map[int]bool{}
 	m.newItems = nil
 	m.lastStack = ""
